@@ -187,6 +187,7 @@ fn main() {
             reg_enum!(jobs, "bits_all_indices", enum_index, body; [0, 1, 2, 3, 4, 5, 6, 7, 8]);
             w_all_wide!(reg_gen!(jobs, "bits", 15000, strat, body;));
             w_giant!(reg_gen!(jobs, "bits", 1000, strat, body;));
+            w_dense!(reg_gen!(jobs, "bits", 1000, strat, body;));
         },
         |_| Map::new(),
     );
